@@ -261,10 +261,14 @@ def execute(case, prefix):
         except Exception as e:                  # noqa
             out['final_disconnect'] = ('exc', f'{type(e).__name__}: {e}', sched.now)
         # neutralise the finalizers (they would call disconnect in whichever thread allocates)
-        client.callbacks.clear()
+        for cbs in client.callbacks.values():       # (the keys stay: a worker thread still alive looks its callback name up)
+            cbs.clear()
 
     x = sched.run(body)
     viol = judge(case, sched, x, world, out)
+    if len(world.connections) > 1:
+        # history class of its own: the link was lost and a new connection was established while the run went on
+        viol = [(sig + ':link-re-established-during-the-run', detail) for sig, detail in viol]
     client = out.get('client')
     if client is not None:
         client.__dict__['disconnect'] = lambda *a, **k: None
@@ -428,14 +432,19 @@ def cases(tier):
                     'bound': 1 if quick else 2, 'dev': 0, 'total': None, 'free': free, 'nanswers': nans})
     res.append({'name': 'same-change/silent-first', 'callers': CALLERS['same-change'], 'delays': [0.0, 5.0], 'scripted': {1: 'silent'},
                 'shutdown': 'none', 'level': 'sync', 'bound': 2 if quick else 3, 'dev': 0, 'total': None, 'free': free, 'nanswers': nans})
-    free = 2 if quick else 3
+    free = 2        # (3 free switches with 2-3 callers and 7 answers: hours per case; the scripted cases above keep 3)
     for name in names:
+        three = len(CALLERS[name]) > 2          # (3 callers: one preemption less, or the case alone takes an hour)
         res.append({'name': f'{name}/sync', 'callers': CALLERS[name], 'shutdown': 'none', 'level': 'sync',
-                    'bound': 2, 'dev': 1, 'total': 3, 'free': free, 'nanswers': nans,
-                    'reconnect': (not quick) and name == 'same-read'})
-    for name in (['same-read', 'ping2'] if quick else names):
+                    'bound': 1 if three else 2, 'dev': 1, 'total': 2 if three else 3, 'free': free, 'nanswers': nans})
+    if not quick:
+        # the peer accepts the client's reconnect after a drop (in all other cases it refuses): the teardown of the old
+        # connection runs next to a connect() triggered by the reconnect thread or by a caller
+        res.append({'name': 'same-read/reconnect', 'callers': CALLERS['same-read'], 'shutdown': 'none', 'level': 'sync',
+                    'bound': 2, 'dev': 1, 'total': 3, 'free': 1, 'nanswers': nans, 'reconnect': True})
+    for name in (['same-read', 'ping2'] if quick else [n for n in names if len(CALLERS[n]) == 2]):
         res.append({'name': f'{name}/user-race', 'callers': CALLERS[name], 'shutdown': 'user-race', 'level': 'sync',
-                    'bound': 2, 'dev': 1, 'total': 2 if quick else 3, 'free': 2, 'nanswers': nans})
+                    'bound': 2, 'dev': 1, 'total': 2, 'free': 2, 'nanswers': nans})
     res.append({'name': 'retry-after-timeout', 'callers': [CALLERS['same-read'][0]], 'shutdown': 'none', 'level': 'sync', 'retry': True,
                 'bound': 1 if quick else 2, 'dev': 1, 'total': 2 if quick else 3, 'free': 2, 'nanswers': nans})
     # a thread whose request timed out goes on with a request for another key while the late reply to the first one comes in
@@ -445,9 +454,10 @@ def cases(tier):
         res.append({'name': f'next-after-timeout/late-{late}', 'callers': [CALLERS['distinct-read'][0]], 'retry': True,
                     'retry_with': [CALLERS['distinct-read'][1]], 'scripted': {1: f'late:{late}', 2: 'delayed'}, 'shutdown': 'none', 'level': 'sync',
                     'bound': 1 if quick else 2, 'dev': 0, 'total': None, 'free': 2, 'nanswers': nans})
-    for name in (['same-read'] if quick else ['same-read', 'same-change', 'unknown+read']):
+    for name in (['same-read'] if quick else ['same-read', 'same-change']):
+        deep = not quick and name == 'same-read'
         res.append({'name': f'{name}/line', 'callers': CALLERS[name], 'shutdown': 'none', 'level': 'line',
-                    'bound': 1 if quick else 2, 'dev': 1 if quick else 0, 'total': 2, 'free': 2, 'nanswers': nans})
+                    'bound': 2 if deep else 1, 'dev': 0 if deep else 1, 'total': 2, 'free': 2, 'nanswers': nans})
     return res
 
 
@@ -507,6 +517,9 @@ def sub_fn(shard):
 
 def run(ctx):
     cs = cases(ctx.tier)
+    import os
+    if os.environ.get('VERIF_CASES'):       # debug / sizing: only the cases whose name contains one of the given words
+        cs = [c for c in cs if any(w in c['name'] for w in os.environ['VERIF_CASES'].split(','))]
     roots = ctx.pmap(root_fn, cs, name='determinism')
     byname = {c['name']: c for c in cs}
     shards = []
